@@ -302,8 +302,11 @@ def check_coherence(sc, log):
     W, C = log["W"], log["C"]
     writers = {w["id"]: w for w in sc["writers"]}
     src_of = {m["id"]: m["src"] for m in sc.get("mirrors", [])}
+    towin_ids = {t["id"] for t in sc.get("towins", [])}
     for c in sc.get("cons", []):
         src = src_of.get(c["src"], c["src"])
+        if src in towin_ids:
+            continue            # stdlib::to_window outputs: check_windows
         w = writers[src]
         shape = coll.SHAPES[w["shape"]]
         tl = model_timeline(w)
@@ -388,6 +391,88 @@ def check_coherence(sc, log):
                     stats["probe_slot_growth"] += 1
                 if t in w["script"] and ci["m"] and not added and not removed:
                     stats["probe_cancelled_in_cycle"] += 1
+    return None, stats
+
+
+def check_windows(sc, log):
+    """stdlib::to_window (tick-count / duration, resettable): the window a consumer reads at every tick equals the reference
+    model driven by the scripted pushes and resets. Duration window of range R: a push at t first drops every element older
+    than t - R, then appends (t, v); tick-count window of period N: a push appends and drops the oldest beyond N; a reset
+    empties the window before a push of the same cycle. A tick-count window is valid iff it holds >= min elements."""
+    stats = dict(window_ticks_checked=0, probe_window_evictions=0, probe_window_resets=0, probe_window_reset_with_push=0, probe_duration_window_grew_while_full=0,
+                 probe_window_below_min=0)
+    C = log["C"]
+    writers = {w["id"]: w for w in sc["writers"]}
+    for tw in sc.get("towins", []):
+        pushes = {}
+        for t, ops in writers[tw["src"]]["script"].items():
+            vals = [int(o[1]) for o in ops if o[0] == "d"]
+            if vals:
+                pushes[int(t)] = vals[-1]
+        resets = set(int(t) for t in writers[tw["reset"]]["script"]) if tw.get("reset") else set()
+        end = sc["window"][1]
+        times = sorted(t for t in set(pushes) | resets if t < end)
+        model = []          # [(time, value)]
+        timeline = {}
+        for t in times:
+            evicted = []
+            if t in resets:
+                model = []
+                stats["probe_window_resets"] += 1
+                if t in pushes:
+                    stats["probe_window_reset_with_push"] += 1
+            if t in pushes:
+                if tw["kind"] == "dur":
+                    while model and model[0][0] < t - tw["period"]:
+                        evicted.append(model.pop(0))
+                    if not evicted and len(model) >= 4 and (len(model) & (len(model) - 1)) == 0:
+                        stats["probe_duration_window_grew_while_full"] += 1
+                    model.append((t, pushes[t]))
+                else:
+                    model.append((t, pushes[t]))
+                    while len(model) > tw["period"]:
+                        evicted.append(model.pop(0))
+            if evicted:
+                stats["probe_window_evictions"] += 1
+            timeline[t] = (list(model), evicted)
+        for c in sc.get("cons", []):
+            if c["src"] != tw["id"]:
+                continue
+            seen = set()
+            for (t, ci) in C.get(c["id"], []):
+                if ci is None:
+                    continue
+                seen.add(t)
+                if t not in timeline:
+                    return ("window_unrequested_tick", "t=%d the window below to_window(%s) ticked although nothing was pushed or reset at that time" % (t, tw)), stats
+                model, evicted = timeline[t]
+                stats["window_ticks_checked"] += 1
+                mv = [v for (_, v) in model]
+                mt = [x for (x, _) in model]
+                if tw["kind"] == "tick":
+                    need = tw["min"] if tw["min"] > 0 else tw["period"]
+                    valid = len(model) >= need
+                    if not valid:
+                        stats["probe_window_below_min"] += 1
+                    if ci["v"] != (1 if valid else 0):
+                        return ("window_validity", "t=%d tick-count window (period %d, min %d) holds %d values but reads valid=%d" % (t, tw["period"], need, len(model), ci["v"])), stats
+                elif model and not ci["v"]:
+                    return ("window_validity", "t=%d duration window holds %d values but reads invalid" % (t, len(model))), stats
+                if ci["v"]:
+                    if ci.get("wv") != mv:
+                        return ("window_contents", "t=%d %s window (period %d) reads %s; the reference model (pushes %s, resets %s) holds %s" % (
+                            t, tw["kind"], tw["period"], ci.get("wv"), sorted(p for p in pushes if p <= t)[-12:], sorted(r for r in resets if r <= t), mv)), stats
+                    if ci.get("wt") != mt:
+                        return ("window_times", "t=%d %s window (period %d) holds values %s with times %s; the pushes happened at %s" % (t, tw["kind"], tw["period"], mv, ci.get("wt"), mt)), stats
+                    if ci["val"] != mv:
+                        return ("window_contents", "t=%d value() reads %s but the window's elements are %s" % (t, ci["val"], mv)), stats
+                    if "wrem" in ci and ci["wrem"] not in [v for (_, v) in evicted] and t not in resets:
+                        return ("window_removed_value", "t=%d removed_value() reads %s; the push of this cycle evicted %s" % (t, ci["wrem"], evicted)), stats
+            for t in times:
+                if t in pushes and t not in seen and c.get("every", 1) == 1:
+                    need = (tw["min"] if tw["min"] > 0 else tw["period"]) if tw["kind"] == "tick" else 1
+                    if len(timeline[t][0]) >= need:
+                        return ("window_tick_missing", "a push at t=%d into a valid %s window did not tick the consumer (it was evaluated at %s)" % (t, tw["kind"], sorted(seen)[:20])), stats
     return None, stats
 
 
